@@ -42,3 +42,24 @@ package mutable
 //@ func SplitRecordByTime$1
 //@   requires 0 <= i && i < len(times)
 //@   ensures [split_point] result == (times[i] > time)
+
+// The flush splits every series at its last flushed time. While ordered files exist but the per-series table of
+// last flushed times is not available (freed on open, reloaded asynchronously), EVERYTHING goes to the
+// out-of-order side (split time = max): replayed, already flushed points must never form a second ordered file.
+//@ prop C01 C02
+//@ func (*tsMemTableImpl).FlushChunks
+//@   ghost has bool = false
+//@   ghost mt Ptr = nil
+//@   ghost ft int64 = 0
+//@   call .GetTableFileNum
+//@     set has = (ret0 > 0)
+//@   call .GetMmsIdTime
+//@     set mt = ret0
+//@   call (*MmsIdTime).Get
+//@     set ft = ret0
+//@   call SplitRecordByTime
+//@     requires [no_ordered_files] !has ==> arg2 == -9223372036854775808
+//@     requires [conservative_when_unknown] has && mt == nil ==> arg2 == 9223372036854775807
+//@     requires [per_series_time] has && mt != nil ==> arg2 == ft
+//@   loop 1
+//@     invariant has == hasOrderFile && mt == mmsIdTime && (!hasOrderFile ==> flushTime == -9223372036854775808)
